@@ -1,0 +1,324 @@
+//go:build verif
+
+package inference
+
+import (
+	"fmt"
+	"go/ast"
+	"go/token"
+	"go/types"
+	"regexp"
+	"strconv"
+
+	"go.uber.org/nilaway/annotation"
+	"go.uber.org/nilaway/config"
+	"go.uber.org/nilaway/util/analysishelper"
+	"go.uber.org/nilaway/util/orderedmap"
+	"golang.org/x/tools/go/analysis"
+)
+
+// This file is only compiled with the `verif` build tag. It lets the verification harness drive the
+// real inference Engine with synthetic sites and triggers (through a synthetic analysis.Pass) and dump
+// its state in an abstract form.
+
+// VerifSite describes a synthetic annotation site: a package-level variable (Param=false) or a call-site
+// parameter (Param=true; only those may control triggers), declared in package Pkg.
+type VerifSite struct {
+	ID       int
+	Exported bool
+	Param    bool
+	Pkg      int
+}
+
+// VerifTrigger is a synthetic full trigger: PK/CK in {'A' always, 'N' never, 'C' conditional on site P/C}.
+type VerifTrigger struct {
+	ID     int
+	PK, CK byte
+	P, C   int
+	Ctrl   int // controlling site or -1
+}
+
+// VerifAnnot is an explicit annotation.
+type VerifAnnot struct {
+	Site int
+	Val  bool
+}
+
+// VerifPkg is one package to analyse: its annotations, triggers, and the indices of the packages whose
+// facts it can see, in the order the driver hands them over.
+type VerifPkg struct {
+	Annots   []VerifAnnot
+	Triggers []VerifTrigger
+	Imports  []int
+	UseGob   bool
+}
+
+// VerifEdge is an implication edge endpoint with the id of the asserting trigger.
+type VerifEdge struct{ Site, Tid int }
+
+// VerifEntry is one entry of an inferred map. Expl encodes the explanation chain: trigger ids of the
+// deep constraints, outermost first, then the leaf: (tid, -1) for a shallow constraint, (site, -2) for
+// an annotation.
+type VerifEntry struct {
+	Site      int
+	Det, Val  bool
+	Expl      []int
+	Ins, Outs []VerifEdge
+}
+
+// VerifConflict is a reported conflict.
+type VerifConflict struct {
+	Single              bool
+	Tid                 int
+	NilExpl, NonnilExpl []int
+}
+
+// VerifResult is the outcome for one package.
+type VerifResult struct {
+	Conflicts []VerifConflict
+	Map       []VerifEntry
+	Fact      []VerifEntry
+	HasFact   bool
+	ToExport  []int
+	Panic     string
+}
+
+type verifRecorder struct {
+	conflicts []VerifConflict
+}
+
+func verifLine(e ast.Expr, fset *token.FileSet) int { return fset.Position(e.Pos()).Line }
+
+var verifFset *token.FileSet
+
+func (r *verifRecorder) AddSingleAssertionConflict(trigger annotation.FullTrigger) {
+	r.conflicts = append(r.conflicts, VerifConflict{Single: true, Tid: verifLine(trigger.Consumer.Expr, verifFset)})
+}
+
+func (r *verifRecorder) AddOverconstraintConflict(nilExplanation, nonnilExplanation ExplainedBool) {
+	r.conflicts = append(r.conflicts, VerifConflict{NilExpl: verifExpl(nilExplanation), NonnilExpl: verifExpl(nonnilExplanation)})
+}
+
+func verifExpl(e ExplainedBool) []int {
+	var out []int
+	for e != nil {
+		switch v := e.(type) {
+		case TrueBecauseDeepConstraint:
+			out = append(out, v.InternalAssertion.Position.Line)
+			e = v.DeeperExplanation
+		case FalseBecauseDeepConstraint:
+			out = append(out, v.InternalAssertion.Position.Line)
+			e = v.DeeperExplanation
+		case TrueBecauseShallowConstraint:
+			return append(out, v.ExternalAssertion.Position.Line, -1)
+		case FalseBecauseShallowConstraint:
+			return append(out, v.ExternalAssertion.Position.Line, -1)
+		case TrueBecauseAnnotation:
+			return append(out, v.AnnotationPos.Line, -2)
+		case FalseBecauseAnnotation:
+			return append(out, v.AnnotationPos.Line, -2)
+		default:
+			return append(out, -99)
+		}
+	}
+	return out
+}
+
+var verifSiteRe = regexp.MustCompile(`(?:Global Variable [sS]|Function [fF])(\d+)`)
+
+func verifSiteID(s primitiveSite) int {
+	m := verifSiteRe.FindStringSubmatch(s.Repr)
+	if m == nil {
+		return -1
+	}
+	n, _ := strconv.Atoi(m[1])
+	return n
+}
+
+func verifDump(m *orderedmap.OrderedMap[primitiveSite, InferredVal]) []VerifEntry {
+	var out []VerifEntry
+	for _, p := range m.Pairs {
+		en := VerifEntry{Site: verifSiteID(p.Key)}
+		switch v := p.Value.(type) {
+		case *DeterminedVal:
+			en.Det, en.Val, en.Expl = true, v.Bool.Val(), verifExpl(v.Bool)
+		case *UndeterminedVal:
+			for _, q := range v.Implicants.Pairs {
+				en.Ins = append(en.Ins, VerifEdge{verifSiteID(q.Key), q.Value.Position.Line})
+			}
+			for _, q := range v.Implicates.Pairs {
+				en.Outs = append(en.Outs, VerifEdge{verifSiteID(q.Key), q.Value.Position.Line})
+			}
+		}
+		out = append(out, en)
+	}
+	return out
+}
+
+// VerifRun analyses the packages in order with the real Engine: ObserveUpstream, ObserveAnnotations,
+// ObservePackage, Export, exactly as accumulation.run does.
+func VerifRun(sites []VerifSite, pkgs []VerifPkg) []VerifResult {
+	GobRegister()
+	fset := token.NewFileSet()
+	verifFset = fset
+	maxID := 1
+	for _, s := range sites {
+		maxID = max(maxID, s.ID)
+	}
+	for _, p := range pkgs {
+		for _, t := range p.Triggers {
+			maxID = max(maxID, t.ID)
+		}
+	}
+	nLines := maxID + 2
+	mkFile := func(name string) *token.File {
+		f := fset.AddFile(name, -1, nLines*10)
+		lines := make([]int, nLines)
+		for i := range lines {
+			lines[i] = i * 10
+		}
+		f.SetLines(lines)
+		return f
+	}
+	tpkgs := make([]*types.Package, len(pkgs))
+	sfiles := make([]*token.File, len(pkgs))
+	tfiles := make([]*token.File, len(pkgs))
+	for i := range pkgs {
+		tpkgs[i] = types.NewPackage(fmt.Sprintf("ex.com/p%02d", i), fmt.Sprintf("p%02d", i))
+		sfiles[i] = mkFile(fmt.Sprintf("p%02d/s.go", i))
+		tfiles[i] = mkFile(fmt.Sprintf("p%02d/t.go", i))
+	}
+	ptrInt := types.NewPointer(types.Typ[types.Int])
+	keys := map[int]annotation.Key{}
+	gvars := map[int]*types.Var{}
+	pfuncs := map[int]*types.Func{}
+	plocs := map[int]token.Position{}
+	for _, s := range sites {
+		pos := sfiles[s.Pkg].LineStart(s.ID)
+		if s.Param {
+			name := fmt.Sprintf("f%d", s.ID)
+			if s.Exported {
+				name = fmt.Sprintf("F%d", s.ID)
+			}
+			sig := types.NewSignatureType(nil, nil, nil, types.NewTuple(types.NewVar(pos, tpkgs[s.Pkg], "x", ptrInt)), nil, false)
+			fn := types.NewFunc(pos, tpkgs[s.Pkg], name, sig)
+			tpkgs[s.Pkg].Scope().Insert(fn)
+			loc := token.Position{Filename: fmt.Sprintf("p%02d/c.go", s.Pkg), Line: s.ID, Column: 1, Offset: s.ID * 10}
+			keys[s.ID] = annotation.NewCallSiteParamKey(fn, 0, loc)
+			pfuncs[s.ID], plocs[s.ID] = fn, loc
+		} else {
+			name := fmt.Sprintf("s%d", s.ID)
+			if s.Exported {
+				name = fmt.Sprintf("S%d", s.ID)
+			}
+			v := types.NewVar(pos, tpkgs[s.Pkg], name, ptrInt)
+			tpkgs[s.Pkg].Scope().Insert(v)
+			keys[s.ID] = &annotation.GlobalVarAnnotationKey{VarDecl: v}
+			gvars[s.ID] = v
+		}
+	}
+
+	results := make([]VerifResult, len(pkgs))
+	facts := make([]*InferredMap, len(pkgs))
+	for i, p := range pkgs {
+		func() {
+			defer func() {
+				if r := recover(); r != nil {
+					results[i].Panic = fmt.Sprint(r)
+				}
+			}()
+			var exported *InferredMap
+			var upstream []analysis.PackageFact
+			for _, j := range p.Imports {
+				if facts[j] == nil {
+					continue
+				}
+				f := facts[j]
+				if p.UseGob {
+					b, err := f.GobEncode()
+					if err != nil {
+						panic(err)
+					}
+					f = new(InferredMap)
+					if err := f.GobDecode(b); err != nil {
+						panic(err)
+					}
+				}
+				upstream = append(upstream, analysis.PackageFact{Package: tpkgs[j], Fact: f})
+			}
+			pass := analysishelper.NewEnhancedPass(&analysis.Pass{
+				Analyzer:          &analysis.Analyzer{Name: "verif"},
+				Fset:              fset,
+				Pkg:               tpkgs[i],
+				TypesInfo:         &types.Info{Types: map[ast.Expr]types.TypeAndValue{}, Defs: map[*ast.Ident]types.Object{}, Uses: map[*ast.Ident]types.Object{}},
+				ResultOf:          map[*analysis.Analyzer]any{config.Analyzer: &config.Config{}},
+				Report:            func(analysis.Diagnostic) {},
+				AllPackageFacts:   func() []analysis.PackageFact { return upstream },
+				ExportPackageFact: func(f analysis.Fact) { exported = f.(*InferredMap) },
+			})
+			rec := &verifRecorder{}
+			e := NewEngine(pass, rec)
+			e.ObserveUpstream()
+
+			globals := map[*types.Var]bool{}
+			csp := map[annotation.CallSite][]annotation.ArgLocAndVal{}
+			for _, a := range p.Annots {
+				if v, ok := gvars[a.Site]; ok {
+					globals[v] = a.Val
+				} else {
+					cs := annotation.CallSite{Fun: pfuncs[a.Site], Location: plocs[a.Site]}
+					csp[cs] = []annotation.ArgLocAndVal{{Location: plocs[a.Site], Val: annotation.Val{IsNilable: a.Val, IsNilableSet: true}}}
+				}
+			}
+			e.ObserveAnnotations(annotation.VerifObservedMap(globals, csp))
+
+			var triggers []annotation.FullTrigger
+			for _, t := range p.Triggers {
+				ident := &ast.Ident{Name: fmt.Sprintf("t%d", t.ID), NamePos: tfiles[i].LineStart(t.ID)}
+				var prod annotation.ProducingAnnotationTrigger
+				switch t.PK {
+				case 'A':
+					prod = &annotation.ProduceTriggerTautology{}
+				case 'N':
+					prod = &annotation.ProduceTriggerNever{}
+				default:
+					prod = &annotation.TriggerIfNilable{Ann: keys[t.P]}
+				}
+				var cons annotation.ConsumingAnnotationTrigger
+				switch t.CK {
+				case 'A':
+					cons = &annotation.ConsumeTriggerTautology{}
+				default:
+					cons = &annotation.TriggerIfNonNil{Ann: keys[t.C]}
+				}
+				ft := annotation.FullTrigger{
+					Producer: &annotation.ProduceTrigger{Annotation: prod, Expr: ident},
+					Consumer: &annotation.ConsumeTrigger{Annotation: cons, Expr: ident},
+				}
+				if t.Ctrl >= 0 {
+					ft.Controller = keys[t.Ctrl].(*annotation.CallSiteParamAnnotationKey)
+				}
+				triggers = append(triggers, ft)
+			}
+			e.ObservePackage(triggers)
+			results[i].Conflicts = rec.conflicts
+			results[i].Map = verifDump(e.inferredMap.mapping)
+			for _, pr := range e.inferredMap.mapping.Pairs {
+				_ = pr
+			}
+			chosen := e.inferredMap.chooseSitesToExport()
+			for _, pr := range e.inferredMap.mapping.Pairs {
+				if chosen[pr.Key] {
+					results[i].ToExport = append(results[i].ToExport, verifSiteID(pr.Key))
+				}
+			}
+			e.inferredMap.Export(pass)
+			if exported != nil {
+				results[i].HasFact = true
+				results[i].Fact = verifDump(exported.mapping)
+				facts[i] = exported
+			}
+		}()
+	}
+	return results
+}
